@@ -218,6 +218,9 @@ class Impl:
         class Blocked(Exception):
             pass
 
+        class HugeArray(Exception):
+            pass
+
         class Bounded(Executor):
             def __init__(s2):
                 super().__init__(name="asmcheck")
@@ -236,6 +239,11 @@ class Impl:
             def _do_wait(s2):
                 # the base class would spin forever waiting for the network stack
                 raise Blocked()
+
+            def _initialize_array(s2, app_id, address, length):
+                if length is not None and length > 100000:
+                    raise HugeArray()  # would exhaust the harness's memory: the case is dropped, not compared
+                super()._initialize_array(app_id, address, length)
 
             # ---- recording (only the documented extension points and two bookkeeping methods are wrapped)
             def _do_single_qubit_instr(s2, instr, subroutine_id, address):
@@ -288,6 +296,9 @@ class Impl:
                 kind = 2
             except Blocked:
                 kind = 3
+            except HugeArray:
+                out.append(None)
+                break
             except Exception:
                 kind = 1
             line = 0 if kind == 0 else ex.fault_line
